@@ -610,7 +610,10 @@ def _check_naturals_evaluated(ctx):
     except (NotSymbolic, TypeError, ValueError) as exc:
         raise AnalysisError(f"derive_naturals is outside the evaluation whitelist on numbers: {exc}") from exc
     c2 = np.asarray(c2, dtype=float)
-    if c2.shape != (2, 2) or np.abs(c2 - nevecs).max() > 1e-12 or np.abs(np.asarray(o2, dtype=float) - nevals).max() > 1e-12:
+    o2 = np.asarray(o2, dtype=float)
+    # (a common re-ordering of occupations and columns is fine: compare as a set of (occupation, vector) pairs)
+    pairs_ok = c2.shape == (2, 2) and o2.shape == (2,) and sorted((round(float(o2[k]), 12), tuple(np.round(c2[:, k], 12))) for k in range(2)) == sorted((round(float(nevals[k]), 12), tuple(np.round(nevecs[:, k], 12))) for k in range(2))
+    if not pairs_ok:
         ctx.violate("R5", f"derive_naturals with an overlap matrix of integer dtype returns the coefficients {c2.tolist()} where the solver gave {nevecs.tolist()}: the eigenvectors are cast to the dtype of the overlap argument", dn, dn.node, construct="derive_naturals: eigenvectors altered for an integer overlap")
     else:
         ctx.ok("R5", "derive_naturals returns the solver's eigenvectors unaltered also for an overlap of integer dtype", where, sample=False)
